@@ -50,6 +50,7 @@ type Ctx struct {
 	Rng     *rand.Rand
 	Res     *Result
 	Scratch string
+	Abort   bool // a case could not be brought to an end (stuck goroutines): stop the batch
 
 	caselog    string
 	nontrivial map[string]bool
